@@ -414,7 +414,25 @@ func execSim(line string) h.Result {
 	for k, v := range tcell.RuneFallbacks {
 		s.fb[k] = v
 	}
-	go s.poller()
+	pollerDone := make(chan struct{})
+	go func() { s.poller(); close(pollerDone) }()
+	// `I2` as the FIRST op: the object is finished and initialised again before anything else happens — a SimulationScreen
+	// that a test suite reuses.  The second life is a fresh screen (Init sets every field up again): a no-op for the model.
+	if len(ops) > 1 && strings.TrimSpace(ops[1]) == "I2" {
+		scr.SetContent(1, 1, 'x', nil, tcell.StyleDefault.Bold(true))
+		scr.Show()
+		scr.Fini()
+		select {
+		case <-pollerDone:
+		case <-time.After(2 * time.Second):
+		}
+		if scr.Init() != nil {
+			res.Obs = "init-failed"
+			return res
+		}
+		go s.poller()
+		s.tags["second-life"] = true
+	}
 	defer func() {
 		if p := recover(); p != nil {
 			// the screen may have panicked holding its lock: do not wait for Fini, let the driver record the panic
@@ -447,6 +465,8 @@ func execSim(line string) h.Result {
 			flushBurst() // E, or any other op: the bracket ends here
 		}
 		switch {
+		case f[0] == "I2" && len(f) == 1:
+			// handled before the loop (only as the first op)
 		case f[0] == "A" && len(f) == 1:
 			burst = &simBurst{}
 		case f[0] == "E" && len(f) == 1:
@@ -683,6 +703,21 @@ func execSim(line string) h.Result {
 			obs = append(obs, "b:"+b01(ok))
 			s.judgeBytes(b, ok, evs)
 			res.Nontrivial = true
+		case (f[0] == "OU" && len(f) == 2) || (f[0] == "OR" && len(f) == 3):
+			// ANOTHER SimulationScreen of the same process (same charset, created and finished right here) changes ITS
+			// fallback table: nothing this screen reports may change (a no-op for the model)
+			o := tcell.NewSimulationScreen(charset)
+			if o.Init() == nil {
+				if f[0] == "OU" {
+					o.UnregisterRuneFallback(rune(h.Atoi(f[1])))
+				} else {
+					o.RegisterRuneFallback(rune(h.Atoi(f[1])), string(h.Unhex(f[2])))
+				}
+				o.SetContent(0, 0, rune(h.Atoi(f[1])), nil, tcell.StyleDefault)
+				o.Show()
+				o.Fini()
+			}
+			s.tags["other-screen-fallback-change"] = true
 		case f[0] == "R" && len(f) == 3:
 			r, sub := rune(h.Atoi(f[1])), string(h.Unhex(f[2]))
 			scr.RegisterRuneFallback(r, sub)
@@ -1075,7 +1110,15 @@ func genSim(g *h.Gen) {
 				m := h.Pick(r, []int{0x2500, 0x4e16, 0x20ac, 0x301, 0x25c6})
 				ops = append(ops, fmt.Sprintf("R %d %s", m, h.Hex([]byte(h.Pick(r, []string{"*", "+", "eu"})))))
 			case k < 95:
-				ops = append(ops, fmt.Sprintf("U %d", h.Pick(r, []int{0x2500, 0x4e16, 0x25c6, 0x2502})))
+				if r.Chance(40) { // another screen of the process changes its own table
+					if r.Bool() {
+						ops = append(ops, fmt.Sprintf("OU %d", h.Pick(r, []int{0x2500, 0x25c6, 0x2502, 0x2192})))
+					} else {
+						ops = append(ops, fmt.Sprintf("OR %d %s", h.Pick(r, []int{0x2500, 0x4e16, 0x25c6}), h.Hex([]byte("#"))))
+					}
+				} else {
+					ops = append(ops, fmt.Sprintf("U %d", h.Pick(r, []int{0x2500, 0x4e16, 0x25c6, 0x2502})))
+				}
 			case k < 97:
 				m := h.Pick(r, runePool)
 				used[rune(m)] = true
@@ -1097,6 +1140,9 @@ func genSim(g *h.Gen) {
 		var tbl []string
 		for _, u := range us {
 			tbl = append(tbl, fmt.Sprintf("%d=%s", u, cd.encStr(rune(u))))
+		}
+		if r.Chance(15) { // the history runs in the object's second life (Init, Fini, Init)
+			ops = append([]string{"I2"}, ops...)
 		}
 		g.Emit("sim cfg %s %s %s; %s", v, cs, strings.Join(tbl, ","), strings.Join(ops, "; "))
 	}
@@ -1205,6 +1251,23 @@ func genSimDirected(g *h.Gen, v string) {
 	}
 	wide := []int{0x4e16, 0x754c, 0xff21, 0x3042, 0x1f600}
 	narrow := []int{'a', 'Z', ' ', 0xe9, '#'}
+	// another screen of the process changes ITS fallback table (before / after this screen's own changes), then this screen
+	// draws the rune and asks CanDisplay; also in the object's second life
+	for _, cs := range []string{"US-ASCII", "ISO8859-1", "KOI8-R"} {
+		cd := newCodec(cs)
+		if cd == nil {
+			continue
+		}
+		for k, m := range []int{0x2500, 0x25c6, 0x2192, 0x2502} {
+			tbl := fmt.Sprintf("%d=%s,32=%s", m, cd.encStr(rune(m)), cd.encStr(' '))
+			pre := ""
+			if k%2 == 1 {
+				pre = "I2; "
+			}
+			g.Emit("sim cfg %s %s %s; %sOU %d; S 0 0 %d - %s; W; Q %d 1; G", v, cs, tbl, pre, m, m, def, m)
+			g.Emit("sim cfg %s %s %s; %sS 0 0 %d - %s; W; OU %d; OR %d 23; N; Q %d 1; G", v, cs, tbl, pre, m, def, m, m, m)
+		}
+	}
 	for i, n := 0, g.N(120, 3000); i < n; i++ {
 		cs := simCharsets[i%len(simCharsets)]
 		cd := newCodec(cs)
